@@ -4,6 +4,7 @@ package c05
 
 import (
 	"bytes"
+	"crypto/cipher"
 	"crypto/rsa"
 	"crypto/sha256"
 	"crypto/x509"
@@ -23,11 +24,14 @@ import (
 	"filippo.io/age"
 	"filippo.io/age/armor"
 	"filippo.io/age/internal/format"
+	"filippo.io/age/internal/stream"
 	"filippo.io/age/xverif/internal/eval"
+	"filippo.io/age/xverif/internal/strm"
 	"filippo.io/age/xverif/internal/tape"
 	"filippo.io/age/xverif/internal/vectors"
 	"filippo.io/age/xverif/internal/vk"
 	"filippo.io/age/xverif/internal/world"
+	"golang.org/x/crypto/chacha20poly1305"
 )
 
 type rcp struct {
@@ -623,6 +627,13 @@ func RunC05(tier string) {
 	rand.New(rand.NewSource(run.Seed + 1)).Read(big)
 	checkEncrypt(run, t, w, findCase(t, []rcp{{K: "X", ID: "x1"}}), len(big), false, big, "C05", nil)
 	run.Distinct("enc:x1:257chunks")
+	// through the armor the binary length takes every residue mod 48 (the footer rule differs at 0, 46, 47)
+	if xc := findCase(t, []rcp{{K: "X", ID: "x1"}}); xc != nil {
+		for n := 0; n < 50; n++ {
+			checkEncrypt(run, t, w, xc, n, true, pt, "C05", nil)
+			run.Distinct(fmt.Sprintf("enc-armor-align:%d", n))
+		}
+	}
 	run.Add("recipient_lists", len(t.Cases))
 	run.Sample(map[string]interface{}{"recipients": rsSig(t.Cases[len(t.Cases)/2].Rs), "plan": t.Cases[len(t.Cases)/2].Plan})
 	corpus(run, t)
@@ -736,8 +747,109 @@ func RunC06(tier string) {
 	run.Distinct("carry:258chunks")
 	run.Add("histories", nh)
 	run.Sample(map[string]interface{}{"recipients": rsSig(t.Cases[len(t.Cases)/3].Rs), "plan": t.Cases[len(t.Cases)/3].Plan})
+	nonceReuseAfterWriteError(run, rng)
+	if run.Thorough() {
+		secondCarry(run, rng)
+	}
 	mathRandGuard(run)
 	run.Finish()
+}
+
+// attemptDst records every frame handed to it, also the ones it refuses.
+type attemptDst struct {
+	attempts [][]byte
+	failAt   int
+}
+
+func (d *attemptDst) Write(p []byte) (int, error) {
+	d.attempts = append(d.attempts, append([]byte{}, p...))
+	if len(d.attempts) == d.failAt {
+		return 0, errors.New("injected write failure")
+	}
+	return len(p), nil
+}
+
+// nonceReuseAfterWriteError: a caller that keeps writing after the destination failed once must not make the writer seal
+// two different chunks under the same key and nonce (what reached the wire of the failed write may have been observed).
+func nonceReuseAfterWriteError(run *vk.Run, rng *rand.Rand) {
+	key := make([]byte, 32)
+	rng.Read(key)
+	aead, _ := chacha20poly1305.New(key)
+	data := make([]byte, 70000)
+	for failAt := 1; failAt <= 3; failAt++ {
+		d := &attemptDst{failAt: failAt}
+		w, err := stream.NewWriter(key, d)
+		if err != nil {
+			vk.Infra("%v", err)
+		}
+		for i := 0; i < 5; i++ {
+			rng.Read(data)
+			w.Write(data) // errors deliberately ignored: the caller carries on
+		}
+		w.Close()
+		run.Eval(1)
+		seen := map[string][]byte{}
+		for _, a := range d.attempts {
+			for ctr := 0; ctr < 12; ctr++ {
+				for _, fin := range []bool{false, true} {
+					if _, err := aead.Open(nil, strm.Nonce(ctr, fin), a, nil); err == nil {
+						k := fmt.Sprintf("%d/%v", ctr, fin)
+						if prev, ok := seen[k]; ok && !bytes.Equal(prev, a) {
+							run.Violation("C06:nonce-reused-after-write-error", fmt.Sprintf("after the destination failed at write %d and the caller kept writing, two different chunks were sealed under counter %d (final=%v) of the same key", failAt, ctr, fin), map[string]interface{}{"check": "C06.failedflush", "failAt": failAt})
+						}
+						seen[k] = a
+					}
+				}
+			}
+		}
+		run.Distinct(fmt.Sprintf("failed-flush:%d", failAt))
+	}
+}
+
+// frameTap looks at frames as they stream by (no buffering of the 4 GiB payload).
+type frameTap struct {
+	aead    cipher.AEAD
+	idx     int
+	want    map[int]bool
+	opened  map[int]bool
+	buf     []byte
+	skipped int64
+}
+
+func (t *frameTap) Write(p []byte) (int, error) {
+	// stream.Writer hands over exactly one frame per Write
+	if t.want[t.idx] {
+		if _, err := t.aead.Open(nil, strm.Nonce(t.idx, false), p, nil); err == nil {
+			t.opened[t.idx] = true
+		}
+	}
+	t.idx++
+	return len(p), nil
+}
+
+// secondCarry: 65 538 chunks (4 GiB) streamed through the writer; the frames around the counter's second byte carry must be
+// sealed under the specified nonces (counter 65535, 65536, 65537 big-endian in 11 bytes).
+func secondCarry(run *vk.Run, rng *rand.Rand) {
+	key := make([]byte, 32)
+	rng.Read(key)
+	aead, _ := chacha20poly1305.New(key)
+	tap := &frameTap{aead: aead, want: map[int]bool{255: true, 256: true, 65535: true, 65536: true, 65537: true}, opened: map[int]bool{}}
+	w, _ := stream.NewWriter(key, tap)
+	chunk := make([]byte, 65536)
+	for i := 0; i < 65539; i++ {
+		chunk[0] = byte(i)
+		if _, err := w.Write(chunk); err != nil {
+			vk.Infra("%v", err)
+		}
+	}
+	w.Close()
+	run.Eval(1)
+	for i := range tap.want {
+		if !tap.opened[i] {
+			run.Violation("C06:chunk-nonce-after-carry", fmt.Sprintf("chunk %d of a 4 GiB payload is not sealed under counter %d of the age v1 nonce layout", i, i), map[string]interface{}{"check": "C06.carry2", "chunk": i})
+		}
+	}
+	run.Distinct("second-carry")
 }
 
 // mathRandGuard: the only non-test file allowed to import math/rand is plugin/client.go (grease, not key material).
